@@ -74,6 +74,8 @@ def gen(rng, n, tier):
                 axes = [["static", [[Fr(j), Fr(j + 1)] for j in range((n0 + a - 1) // a)], "F"]] + axes[1:]
                 break      # operand bins are unknown to the generator afterwards
         if not ops: continue
+        if nd == 1 and not big and rng.random() < (0.25 if adaptive else 0.05) and ops[-1][0] != "merge":
+            ops.append(["opaque", "collection_create_sibling"])      # a member of a collection while a sibling is created / filled
         yield [["bucket", "%dd/%s/%s" % (nd, "adaptive" if adaptive else ("gapped" if gapped else "fixed"), sx.rec(h)["dtype"])],
                ["hist", h], ["ops", ops]]
 
@@ -117,6 +119,11 @@ def _opaque(h, name):
     elif name == "set_freq_wrong_shape": h.frequencies = np.zeros(tuple(s + 1 for s in h.shape))
     elif name == "set_freq_negative": h.frequencies = -np.ones(h.shape)
     elif name == "set_err_negative": h.errors2 = -np.ones(h.shape)
+    elif name == "collection_create_sibling":
+        from physt.histogram_collection import HistogramCollection
+        c = HistogramCollection(h)
+        far = float(h.bin_right_edges[-1]) + 3.25 * float(h.bin_widths[-1]) if h.bin_count else 7.5
+        c.create("sibling", [far, far + 0.25])
     elif name == "normalize_bad_axis":
         if h.ndim != 2: raise ValueError("n/a")
         h.partial_normalize(5, inplace=True)
@@ -147,12 +154,24 @@ def impl(case):
                 elif k == "set": h.dtype = np.dtype(op[1] if op[1] != "float128" else "longdouble")
             except Exception as e:
                 raised = True
-            out.append([raised, before, _cells(h), mb, [float(x) for x in np.asarray(h._missed).tolist()], _shapes_ok(h)])
+            try: after = _cells(h)
+            except (IndexError, ValueError): after = before      # arrays no longer match the bins: reported through the shape flag
+            out.append([raised, before, after, mb, [float(x) for x in np.asarray(h._missed).tolist()], _shapes_ok(h)])
     return out
 
 def corr_view(case, obs): return [o[0] for o in obs]
 def corr_equal(case, a, b):
     return all(y == "?" or x == y for x, y in zip(a, b)) and len(a) == len(b)
+
+def classify(case, obs, model, verdict, corr, detail=""):
+    """F15: the only malformed state is the one right after a sibling of an ADAPTIVE collection member was created"""
+    d = sx.rec(case); ops = d["ops"]
+    if verdict != "bad" or not ops or ops[-1] != ["opaque", "collection_create_sibling"]: return None
+    if "adaptive" not in d["bucket"]: return None
+    flags = [o[5] for o in obs]
+    ok = lambda f: f is True or f == "T"
+    if all(ok(f) for f in flags[:-1]) and not ok(flags[-1]): return "F15"
+    return None
 
 def nontrivial(case, obs):
     flags = [o[0] for o in obs]
